@@ -25,7 +25,6 @@ CLAIMS = {
 }
 
 CLAIMS.update({
- 'C37': ('proof', 'pending text', 'pending', '5 C37'),
  'C05': ('proof',
          'Chain of contracts on real functions, each link for all inputs: (1) categorize_harmful_diff_node adds exactly the '
          'documented harmful category for every combination of the 29 detection predicates, to the node and its canonical node; '
@@ -53,6 +52,41 @@ CLAIMS.update({
          'Two-DIE lemma on the real die_member_offset: the DWARF 4 description (data_member_location + byte_size/bit_size/bit_offset) '
          'and the DWARF 5 description (data_bit_offset) of the same member give the same offset on little- and big-endian targets.',
          'Scoped to bit-field/member offsets; strx/line_strp forms and type units are not decided.', '5 C43'),
+})
+
+CLAIMS.update({
+ 'C18': ('proof',
+         'Contracts on the real stt/stb/stv_to_* mapping functions (equal to the gABI/GNU table on every defined value; anything '
+         'else reaches the abort, which callers must exclude), on elf_symbol::is_public/is_function/is_variable, on '
+         'symtab_filter::matches + symtab::make_filter, and on the per-symbol statement regions of symtab::load_: a symbol is '
+         'recorded once iff it is a function, IFUNC, TLS or non-absolute object with a known binding, with index, size, type, '
+         'binding, visibility, defined and common flags taken from the ELF symbol.',
+         'Scoped: libelf accessors are stubs; alias grouping by address, symbol-table choice and version lookup '
+         '(get_version_for_symbol) are not decided. STB_GNU_UNIQUE is left unconstrained in is_public.', '5 C18'),
+ 'C28': ('proof',
+         'symtab::make_filter()+symtab_filter::matches (real text): the corpus filter keeps exactly the public symbols and, for a '
+         'kernel binary, exactly those in ksymtab; load_ region: a __ksymtab_<sym> marker of a kernel binary records <sym> (name '
+         'minus 10 characters) as exported and is not itself recorded as a symbol.',
+         'Scoped: is_linux_kernel detection and the later name->symbol marking loop (range-for over unordered containers) are '
+         'outside the front end; --no-linux-kernel-mode wiring is not decided.', '5 C28'),
+ 'C34': ('proof',
+         'Memory safety, absence of abort/assertion failure/division by zero and bounded termination, discharged as CBMC '
+         'obligations with NO validity precondition on the input, for: find_hash_table_section_index, '
+         'lookup_symbol_from_sysv_hash_tab, setup_gnu_ht, bloom_word_at, get_elf_class_size_in_bytes, '
+         'lookup_symbol_from_gnu_hash_tab (arbitrary section content and size up to 16 MiB, arbitrary symbols, any libelf call may '
+         'fail), the stt/stb/stv mappings and the per-symbol region of symtab::load_ (every st_info/st_other/st_shndx). Loops are '
+         'closed by inductive loop contracts (loop-rule generator).',
+         'Scoped to those functions. libelf/libdw are a ghost model; version sections (get_version_for_symbol), '
+         'lookup_symbol_from_symtab, DWARF attribute handling and the rest of symtab::load_ are not decided.', '5 C34'),
+ 'C37': ('proof',
+         'find_hash_table_section_index: for every section list in any order the reported kind is GNU iff a SHT_GNU_HASH exists '
+         '(else SysV iff SHT_HASH exists) and the reported index/symtab link are those of a section of that kind (inductive loop '
+         'contract, watched-index ghost instead of quantifiers). SysV and GNU lookups: the walk starts at buckets[hash % nbuckets], '
+         'follows chain[] / the run of chain words, looks up every entry it must, reports exactly the symbols whose name matches, '
+         'and terminates - stated link by link for arbitrary watched indexes and discharged with inductive loop contracts.',
+         'Completeness over a whole chain is an induction outside the verifier over the discharged links. elf_hash/elf_gnu_hash, '
+         'name comparison, bloom-filter content and versions are ghost/assumed. The two lookups are checked without --dfcc '
+         '(contract as assume/assert around the call; frame not checked).', '5 C37'),
 })
 
 NA = {
